@@ -163,13 +163,18 @@ EConf(reg, S, Root, paths, id, e, fuel) ==
   IF fuel = 0 \/ ~HasId(reg, id) THEN FALSE ELSE
   LET ty == Ty(reg, id)
       d == ty.def
-      t == paths[id + 1].ty
+      t0 == paths[id + 1].ty
+      \* ty_path_middleware of the case ("droproot": the leading root segment of a generated path is removed)
+      t == IF S.droproot /\ t0.k = "path" /\ ~t0.lead /\ Len(t0.segs) > 1 /\ t0.segs[1] = S.root THEN [t0 EXCEPT !.segs = Tail(@)] ELSE t0
+      mwHit == {m \in DOMAIN S.mw : Len(ty.path) > 0 /\ S.mw[m].ident = Ident(ty.path)}
   IN
+  \* ty_middleware of the case: a listed type is replaced by the given expression
+  IF mwHit # {} THEN e = S.mw[CHOOSE m \in mwHit : \A m2 \in mwHit : m <= m2].tree ELSE
   CASE ty.path = <<"Cow">> /\ d.k = "comp" /\ Len(ty.params) = 1 /\ ty.params[1].ty # -1 ->
          EConf(reg, S, Root, paths, ty.params[1].ty, e, fuel - 1)          \* Cow is transparent in the generated code
     [] d.k \in {"comp", "var"} ->
          /\ paths[id + 1].res = "ok" /\ t.k = "path"
-         /\ LET it == IF ~t.lead THEN FindItem(Root, t.segs) ELSE NoItem
+         /\ LET it == IF ~t0.lead THEN FindItem(Root, t0.segs) ELSE NoItem
                 \* the marker for unused parameters, read off the generated item (types without an emitted item have none)
                 structMarker == it.kind = "struct" /\ Len(it.fields) > Len(RealFields(it.fields))
             IN IF d.k = "comp"
